@@ -1,6 +1,7 @@
 import SafeC.Dispatch
 import SafeC.Models.Os
 import SafeC.Models.Time
+import SafeC.Models.Io
 /-!
 # name → model dispatch, os-string family (argument positions as in `tools/fnspec.py`)
 -/
@@ -30,6 +31,9 @@ def dispatchOs (fn : String) (c : Ctx) : Option (Prog Out) :=
   | "ctime_s" => do
     let d ← c.p 0; let m ← c.n 1; let t ← c.p 2; let b ← c.b 3; let txt ← c.p 4
     pure (do let r ← ctime_s c.cfg d m t b txt; pure { ret := showCode r })
+  | "gets_s" => do
+    let d ← c.p 0; let m ← c.n 1; let b ← c.b 2; let i ← c.p 3; let l ← c.n 4
+    pure (do let r ← gets_s c.cfg d m b i l; pure { ret := showCode r })
   | "strerrorlen_s" => do
     let e ← c.n 0; let msg ← c.p 1
     pure (errOut (strerrorlen_s e msg))
